@@ -36,6 +36,7 @@ type CNode struct {
 	fs      *FaultStore
 	lostWhy string
 	lost    bool // a store fault was injected: the specification no longer tracks this node
+	nospec  string // the specification no longer tracks this node, which is still compared with the others (reason)
 }
 
 func quietLogger() *logrus.Entry {
@@ -276,7 +277,7 @@ func (w *World) itxIDs2(itxs []hg.InternalTransaction) []interface{} {
 }
 
 // blockObs projects a delivered block.
-func (n *CNode) blockObs(d *Delivered) map[string]interface{} {
+func (n *CNode) blockObs(d *Delivered) (res map[string]interface{}) {
 	b := &d.Block
 	evs := []string{}
 	fws := []string{}
@@ -323,6 +324,13 @@ func (n *CNode) blockObs(d *Delivered) map[string]interface{} {
 		rc = append(rc, r.Accepted)
 	}
 	ts, big := n.w.RelTS(b.Timestamp())
+	if d.LostReply {
+		defer func() {
+			// (the store can only hold the body as it was handed over)
+			res["dig0"] = hex.EncodeToString(d.Dig0)[:16]
+			res["lostreply"] = true
+		}()
+	}
 	return map[string]interface{}{
 		"idx": b.Index(), "rr": b.RoundReceived(), "evs": evs,
 		"txs": n.w.txIDs2(b.Transactions()), "itxs": n.w.itxIDs2(b.InternalTransactions()),
